@@ -258,6 +258,41 @@ def run(chk):
         chk.ok("O18.4", ADD_PLUGINS, "add_constructor is called for '!' + entry.name on the given loader%s" % ("; names starting with '!' are rejected" if rejects else ""), node=fn.node)
     elif not addc:
         chk.bad("O18.4", ADD_PLUGINS, "no constructor plugin is ever registered", node=fn.node, stmt="none")
+    # ---- O18.6 the rejection is not caught on its way out ---------------------------------------
+    # an unregistered or python/* tag is rejected by a ConstructorError raised INSIDE loader.construct_*(node) (for a
+    # nested node: inside the construct_mapping / construct_sequence call of the enclosing registered tag); a handler
+    # around such a call that does not re-raise turns "rejected" into "silently replaced"
+    SWALLOW = {"ext:yaml.constructor.ConstructorError", "ext:yaml.ConstructorError", "ext:yaml.error.MarkedYAMLError", "ext:yaml.MarkedYAMLError", "ext:yaml.error.YAMLError", "ext:yaml.YAMLError", "ext:builtins.Exception", "ext:builtins.BaseException"}
+    CONSTRUCT = ("construct_mapping", "construct_sequence", "construct_object", "construct_scalar", "construct_pairs", "construct_document", "get_single_data", "get_data", "construct_yaml_map", "construct_yaml_seq")
+    n_sites = 0
+    bad6 = 0
+    for m in prog.modules.values():
+        par = None
+        for n in ast.walk(m.tree):
+            if not (isinstance(n, ast.Call) and isinstance(n.func, ast.Attribute) and n.func.attr in CONSTRUCT):
+                continue
+            n_sites += 1
+            par = par or util.parents_map(m.tree)
+            node, up = n, par.get(id(n))
+            while up is not None:
+                if isinstance(up, (ast.FunctionDef, ast.AsyncFunctionDef, ast.Lambda)):
+                    break
+                if isinstance(up, ast.Try) and any(node is b or any(node is x for x in ast.walk(b)) for b in up.body):
+                    for h in up.handlers:
+                        names = [prog.resolve(m, t) for t in (h.type.elts if isinstance(h.type, ast.Tuple) else [h.type])] if h.type is not None else ["ext:builtins.BaseException"]
+                        if any(q in SWALLOW for q in names) and not any(isinstance(x, ast.Raise) for x in util.walk_no_nested(h)):
+                            bad6 += 1
+                            chk.bad(
+                                "O18.6",
+                                query.where(prog, m, n),
+                                "%s(...) sits in a try whose `except %s` handler does not re-raise: the ConstructorError that rejects a python/* tag or an unregistered !tag below this node is swallowed and the element is built from other data instead of the configuration being rejected" % (n.func.attr, util.unparse(h.type) if h.type is not None else ""),
+                                node=h,
+                                stmt="construct-error-swallowed %s" % n.func.attr,
+                            )
+                node, up = up, par.get(id(up))
+    chk.floor("O18.6 construct sites", n_sites, 2)
+    if not bad6:
+        chk.ok("O18.6", "<package>", "no handler around the %d loader.construct_* / get_single_data call sites swallows a ConstructorError" % n_sites)
     # ---- O18.5 trusted-base cross-read -------------------------------------------------------
     for fact, confirmed in chk.facts.items():
         if confirmed is False:
